@@ -121,13 +121,13 @@ type target struct {
 	heldRefs      [][]forkchoice.NodeRef
 	heldRefsCopy  [][]forkchoice.NodeRef
 	unstable      string
-	fc       forkchoice.Forkchoice
-	arr      *proto.ProtoArray
-	spec     *common.Spec
-	sinkN    int
-	sinkFail int
-	pruned   [][]int
-	dead     bool
+	fc            forkchoice.Forkchoice
+	arr           *proto.ProtoArray
+	spec          *common.Spec
+	sinkN         int
+	sinkFail      int
+	pruned        [][]int
+	dead          bool
 }
 
 func (t *target) sink(ctx context.Context, ref forkchoice.NodeRef, canonical bool) error {
